@@ -195,7 +195,8 @@ CHECKS = {
              "inconclusive in the quick tier); sso(a, e) -> i makes the first-order J2 node drift equal 2 pi/(365.256363004 d) and "
              "sso(a, i) recovers e; frozen-orbit eccentricity formula. Lambert, decidable parts only: with the time-of-flight "
              "function uninterpreted the real _lambert returns only after a Newton step smaller than its tolerance in absolute value (bounded number of "
-             "evaluations); for any y > 0 its velocities conserve energy and angular momentum, stay in the transfer plane and turn "
+             "evaluations); _dF is the derivative of the real _F for z != 0 (dual numbers, Stumpff derivative identities proved first); "
+             "for any y > 0 its velocities conserve energy and angular momentum, stay in the transfer plane and turn "
              "the way asked; _C, _S, _y, _F equal the universal-variable equation (z > 0, = 0, < 0).",
         note="Trusted: z3; the sun's right ascension, Earth constants and the reference body are symbols. Outside (declared, not "
              "claimed): convergence of the Lambert Newton iteration and its bracketing loop (transcendental Stumpff functions; the "
